@@ -36,11 +36,15 @@ type apiCase struct {
 var (
 	c11Accts   = []common.Address{addrN(0xa1, 1), addrN(0xa1, 2)}
 	c11Slots   = []*uint256.Int{uint256.NewInt(0), uint256.NewInt(1), uint256.NewInt(2), uint256.MustFromHex("0x290decd9548b62a8d60345a988386fc84ba6bc95484008f6362f93160ef3e563"), uint256.MustFromHex("0xb10e2d527612073b26eecdfd717e6a320cf44b4afac2b0732d9fcbe2b7fa0cf6")}
-	c11Offsets = []*uint256.Int{nil, uint256.NewInt(0), uint256.NewInt(1), uint256.NewInt(16), uint256.NewInt(31), uint256.NewInt(32), uint256.NewInt(255), new(uint256.Int).Lsh(uint256.NewInt(1), 64)}
-	c11Types   = []common.Hash{common.HexToHash("0x01"), common.HexToHash("0x02"), common.HexToHash("0x03")}
-	c11Names   = []string{"", "a", "b", "c"}
-	c11Index   = [][]byte{{1}, {2}, bytes.Repeat([]byte{3}, 32), []byte("key")}
-	c11Vals    = [][]byte{{}, {1}, {2}, {1, 2, 3}}
+	c11Offsets = []*uint256.Int{nil, uint256.NewInt(0), uint256.NewInt(1), uint256.NewInt(16), uint256.NewInt(31), uint256.NewInt(32), uint256.NewInt(255), new(uint256.Int).Lsh(uint256.NewInt(1), 64),
+		// out-of-range offsets that ALIAS a valid one when narrowed to 8 or 64 bits (indices 8..14)
+		uint256.NewInt(256), uint256.NewInt(257), uint256.NewInt(272), uint256.NewInt(287),
+		new(uint256.Int).AddUint64(new(uint256.Int).Lsh(uint256.NewInt(1), 64), 1), new(uint256.Int).AddUint64(new(uint256.Int).Lsh(uint256.NewInt(1), 64), 16),
+		new(uint256.Int).AddUint64(new(uint256.Int).Lsh(uint256.NewInt(1), 128), 31)}
+	c11Types = []common.Hash{common.HexToHash("0x01"), common.HexToHash("0x02"), common.HexToHash("0x03")}
+	c11Names = []string{"", "a", "b", "c"}
+	c11Index = [][]byte{{1}, {2}, bytes.Repeat([]byte{3}, 32), []byte("key")}
+	c11Vals  = [][]byte{{}, {1}, {2}, {1, 2, 3}}
 )
 
 type c11Loc struct {
@@ -375,7 +379,7 @@ func checkC11(c apiCase, st *Stats) *Violation {
 func genApiOp(t *rapid.T) apiOp {
 	op := apiOp{Acct: uniform(t, 0, 1, "acct"), Slot: uniform(t, 0, len(c11Slots)-1, "slot"), Type: uniform(t, 0, len(c11Types)-1, "type")}
 	// offsets: mostly valid ones
-	op.Offset = []int{0, 0, 1, 1, 2, 3, 4, 5, 6, 7}[uniform(t, 0, 9, "offset")]
+	op.Offset = []int{0, 0, 1, 1, 2, 3, 4, 5, 6, 7, 0, 1, 2, 3, 4, 1, 8, 9, 10, 11, 12, 13, 14, 9}[uniform(t, 0, 23, "offset")]
 	switch r := uniform(t, 0, 11, "kind"); {
 	case r < 4:
 		op.K = "regtop"
